@@ -5,7 +5,7 @@ from props.lifecycle_common import run_lifecycle
 def run(ctx):
     if ctx.quick:
         run_lifecycle(ctx, bfs=[("L1", 2, 0), ("P3", 2, 3), ("L3", 2, 0)], emit=[("L2", 1, 0), ("P4", 1, 2)],
-                      sim=[("L1", 4, 0, 300, 18), ("P3", 3, 4, 80, 14), ("L3", 3, 0, 150, 18), ("L4", 3, 0, 120, 18), ("P5", 3, 3, 80, 16)])
+                      sim=[("L1", 4, 0, 300, 18), ("P3", 3, 4, 80, 14), ("L3", 3, 0, 150, 18), ("L4", 3, 0, 120, 18), ("P5", 3, 3, 80, 16), ("S3", 3, 0, 120, 18)])
     else:
         run_lifecycle(ctx, bfs=[("L1", 3, 0), ("P3", 3, 4), ("L3", 3, 0)], emit=[("L2", 2, 0), ("P4", 2, 3), ("P0", 2, 3)],
-                      sim=[("L1", 6, 0, 4000, 26), ("P3", 5, 6, 1500, 22), ("P1", 5, 5, 800, 22), ("L3", 5, 0, 2000, 24), ("L4", 5, 0, 1500, 24), ("P5", 5, 5, 800, 22)])
+                      sim=[("L1", 6, 0, 4000, 26), ("P3", 5, 6, 1500, 22), ("P1", 5, 5, 800, 22), ("L3", 5, 0, 2000, 24), ("L4", 5, 0, 1500, 24), ("P5", 5, 5, 800, 22), ("S3", 5, 0, 1500, 24)])
